@@ -19,12 +19,11 @@ const (
 
 // The LinearQuantizer opcode is both a basic instruction and a template for other instructions.
 type LinearQuantizer struct {
-	lqName   string
-	max      float64
-	s        int
-	t        int
-	opType   uint8
-	pipeline *uint8
+	lqName string
+	max    float64
+	s      int
+	t      int
+	opType uint8
 }
 
 func (op LinearQuantizer) Op_get_name() string {
@@ -229,15 +228,15 @@ func (op LinearQuantizer) Simulate(vm *VM, instr string) error {
 	sn := float64(op.max)
 	s := sd / sn
 
-	switch *op.pipeline {
+	switch vm.pipelinePhase(op.Op_get_name()) {
 	case LQPUT:
 		if op.opType == LQMULT || op.opType == LQDIV {
-			*op.pipeline = LQCORR
+			vm.setPipelinePhase(op.Op_get_name(), LQCORR)
 		} else {
-			*op.pipeline = LQGET
+			vm.setPipelinePhase(op.Op_get_name(), LQGET)
 		}
 	case LQCORR:
-		*op.pipeline = LQGET
+		vm.setPipelinePhase(op.Op_get_name(), LQGET)
 	case LQGET:
 		switch op.opType {
 		case LQADD:
@@ -278,7 +277,7 @@ func (op LinearQuantizer) Simulate(vm *VM, instr string) error {
 			}
 		}
 		vm.Pc = vm.Pc + 1
-		*op.pipeline = LQPUT
+		vm.setPipelinePhase(op.Op_get_name(), LQPUT)
 	}
 	return nil
 }
